@@ -192,6 +192,34 @@ func (tr *Tr) callContract(key string, fc *FuncContract, f *ssa.Function, sig *t
 	pre := st.clone()
 	// havoc
 	mods := tr.g.modsetFor(key, fc, f)
+	// a frame clause without exceptions ("frame T:") says that no object existing before the call is written in the heaps
+	// of T: for the caller that is an allocation-only effect (the callee proves the frame against its body)
+	if len(fc.Frames) > 0 {
+		m2 := map[string]modInfo{}
+		for n, mi := range mods {
+			m2[n] = mi
+		}
+		for _, fcl := range fc.Frames {
+			if len(fcl.Exprs) != 0 {
+				continue
+			}
+			prefix := "F$" + fcl.TypeKey + "."
+			if fcl.Elems {
+				prefix = "E$" + fcl.TypeKey
+			}
+			for n, mi := range m2 {
+				match := strings.HasPrefix(n, prefix)
+				if fcl.Elems {
+					match = n == prefix || strings.HasPrefix(n, prefix+".") || strings.HasPrefix(n, prefix+"#")
+				}
+				if match && mi.mutates {
+					mi.mutates = false
+					m2[n] = mi
+				}
+			}
+		}
+		mods = m2
+	}
 	tr.havocMods(st, pre, mods)
 	// result
 	var res Value
